@@ -1375,6 +1375,34 @@ class MakePSFromHDF5(Contract):
                 lossy.append(c_['type'].get('qualType'))
         obls.append(Obligation('makePSFromHDF5#record_index_not_narrowed', {'C11'}, [], z3.BoolVal(bool(wide) and not lossy), 'postcondition', None,
                                f'startdiststep is declared {stepp["type"].get("qualType")} and handed on {"with conversions to " + str(lossy) if lossy else "unconverted"}: negative values (records counted from the end) must survive'))
+        # the refusal half of C11: whatever goes wrong in the loader (std::exception, H5::Exception, anything else) ends in a message
+        # and a null result -- which main turns into "Error reading <file>" and an end of the program (MainStartDistribution)
+        trys = [n for n in _walk(body(fn)) if n.get('kind') == 'CXXTryStmt' and any(c_ is calls[0] for c_ in _walk(n['inner'][0]))]
+        problems = []
+        if len(trys) != 1:
+            problems.append('the readPhaseSpace call is not inside exactly one try block')
+        else:
+            hs = [h for h in trys[0]['inner'][1:] if h.get('kind') == 'CXXCatchStmt']
+            # a catch-all handler: its first child is not a VarDecl (catch (...))
+            if not any(not any(c_.get('kind') == 'VarDecl' for c_ in h.get('inner', [])[:1]) for h in hs):
+                problems.append('no catch (...) handler')
+            for h in hs:
+                hb = h['inner'][-1]
+                speaks = any(x.get('kind') in ('CXXOperatorCallExpr', 'CXXMemberCallExpr', 'CallExpr') for x in _walk(hb))
+                rets_ = [x for x in _walk(hb) if x.get('kind') == 'ReturnStmt']
+                if not speaks:
+                    problems.append(f'handler at line {line_of(h)} says nothing')
+                if any(not any(y.get('kind') == 'CXXNullPtrLiteralExpr' for y in _walk(r_)) for r_ in rets_):
+                    problems.append(f'handler at line {line_of(h)} returns something that is not null')
+                if any(x.get('kind') in ('CXXNewExpr',) or (x.get('kind') == 'CallExpr' and 'make_unique' in str((x['inner'][0].get('referencedDecl') or {}).get('name', '')) ) for x in _walk(hb)):
+                    problems.append(f'handler at line {line_of(h)} builds a phase space of its own')
+            # outside the try: the only way out is `return nullptr`
+            inside = set(id(x) for x in _walk(trys[0]))
+            outer = [x for x in _walk(body(fn)) if x.get('kind') == 'ReturnStmt' and id(x) not in inside]
+            if not outer or any(not any(y.get('kind') == 'CXXNullPtrLiteralExpr' for y in _walk(r_)) for r_ in outer):
+                problems.append('after the handlers the function does not return nullptr')
+        obls.append(Obligation('makePSFromHDF5#a_failed_load_yields_a_message_and_null', {'C11'}, [], z3.BoolVal(not problems), 'postcondition', None,
+                               f'every failure of readPhaseSpace is caught, reported and turned into a null result: {problems or "yes"}'))
         ex.obls = obls + [Obligation('makePSFromHDF5#canary', set(), [], z3.BoolVal(False), 'canary', None, '')]
         info = {'unit': self.name, 'file': self.tu, 'sha': tu.sha, 'cases': 1, 'lines': [None, None], 'extract_s': 0, 'facts': {'forwarded': [str(g) for g in got]}}
         return [ex], info
